@@ -35,12 +35,17 @@ def build(ctx, p):
     W.p = p
     W.dev = p["dev"]
     filled = p.get("filled", bool(p.get("comp")))
-    W.src, gs, pre_s = common.make_labware(ctx, "S", p["sgeo"], filled=filled)
+    shared = None
+    if p.get("shared_init"):
+        # both labware are constructed from one caller-owned float array (each must keep its own copy)
+        _, R_, C_ = common.GEO[p["sgeo"]]
+        shared = ctx.np.array([[ctx.real(f"iv{r}_{c}", 0, common.BIG) for c in range(C_)] for r in range(R_)], dtype=float)
+    W.src, gs, pre_s = common.make_labware(ctx, "S", p["sgeo"], filled=filled, init_array=shared)
     if p.get("same"):
         W.dst, gd, pre_d = W.src, gs, {}
         W.geos = [gs]
     else:
-        W.dst, gd, pre_d = common.make_labware(ctx, "D", p["dgeo"], filled=filled)
+        W.dst, gd, pre_d = common.make_labware(ctx, "D", p["dgeo"], filled=filled, init_array=shared)
         W.geos = [gs, gd]
     W.geo = {g.name: g for g in W.geos}
     W.labs = {"S": W.src, W.dst.name: W.dst}
